@@ -293,9 +293,9 @@ def main():
 def vlib_assumptions():
     return [
         "rust_decimal is replaced by /verif/stubs/rust_decimal: exact (i64 mantissa, scale<=18) arithmetic, division rounded half-even at 6 fractional digits; paths leaving that range are cut (outside the bound)",
-        "std HashMap/HashSet replaced by Vec-backed maps (/verif/model/collections.rs); iteration order = insertion order unless the harness switches the nondeterministic order on",
+        "std HashMap/HashSet replaced by 4-slot maps in one Box (/verif/model/collections.rs): exact map semantics, more than 4 entries per map is outside the bound; iteration order = insertion order unless the harness switches the nondeterministic order on",
         "alloc::fmt::format, core::fmt::write, Date/Decimal Display stubbed to no-ops (error texts are not examined)",
-        "Affiliate::from_strep stubbed by a table over the spellings used (1-character ids); regex normalisation outside the claim",
+        "Affiliate::from_strep stubbed by an interning table over the spellings used (short ids of pairwise different lengths); regex normalisation outside the claim",
         "tracing macros expand to nothing; async-std block_on is a poll loop",
         "CBMC run with unwinding assertions on; memory-safety/overflow instrumentation off (safe Rust)",
     ]
